@@ -752,7 +752,7 @@ class C09(fw.Check):
         "never_enforced_remove", "history_exact", "stored_fixpoint", "persist_text",
         "persist_list", "persist_end_to_end", "card_keys_in_format",
         "fmt_obj_view", "set_obj_view", "bool_bound_exact", "slot_always_exact", "bool_bound_persisted",
-        "bool_bound_legacy_counterexample"]]
+        "bool_bound_legacy_counterexample", "wrong_length_refused"]]
     trusted_base = [
         "Lean 4.33.0 kernel; axioms propext, Classical.choice, Quot.sound only (audited per theorem)",
         "hand-written model lean/OdmlModel/Model/Card.lean and Model/CardObj.lean (the stored objects: exact "
